@@ -1256,9 +1256,15 @@ func (w *World) execTypeAssert(fr *Frame, st *State, ins *ssa.TypeAssert) {
 // panicPoint records a possible run-time panic. Outside "safety on"
 // functions the absence of implicit panics is an assumption.
 func (w *World) panicPoint(fr *Frame, st *State, cond Term, what string, pos token.Pos) {
-	if fr.top && fr.contract != nil && (fr.contract.Opts["safety"] == "on" || fr.contract.Opts["safety"] == "full") {
-		w.callOrd["panic:"+what]++
-		o := w.oblige("nopanic", fmt.Sprintf("nopanic.%s.%d", strings.ReplaceAll(what, " ", "-"), w.callOrd["panic:"+what]), st.cond, not(cond), true, fr.contract.Props)
+	if ct := w.safetyContract(fr); ct != nil && (ct.Opts["safety"] == "on" || ct.Opts["safety"] == "full") {
+		key, in := "panic:"+what, ""
+		if !fr.top {
+			// an instruction of a helper inlined under `opt safety-inlined on`: named after the helper
+			in = "in." + fr.fn.Name() + "."
+			key += ":" + fr.fn.Name()
+		}
+		w.callOrd[key]++
+		o := w.oblige("nopanic", fmt.Sprintf("nopanic.%s.%s%d", strings.ReplaceAll(what, " ", "-"), in, w.callOrd[key]), st.cond, not(cond), true, ct.Props)
 		if pos.IsValid() {
 			p := w.l.Prog.Fset.Position(pos)
 			o.Src = fmt.Sprintf("%s:%d:%d", p.Filename, p.Line, p.Column)
@@ -1407,7 +1413,7 @@ func (w *World) dataInvAssume(st *State, l *Loc, v *Val) {
 // dataInvStore: a store to a field (element) that carries a data invariant establishes it (obligation of
 // functions under `opt safety full`).
 func (w *World) dataInvStore(fr *Frame, st *State, l *Loc, v *Val) {
-	if !w.safetyFull(fr) || l == nil {
+	if !fr.top || !w.safetyFull(fr) || l == nil {
 		return
 	}
 	for _, d := range w.dataInvsFor(l) {
@@ -1429,7 +1435,26 @@ func (w *World) dataInvStore(fr *Frame, st *State, l *Loc, v *Val) {
 // (nil dereference, index and slice bounds, write to a nil map, method call on a nil interface). They are
 // generated for the function's own instructions, not for helpers inlined into it.
 func (w *World) safetyFull(fr *Frame) bool {
-	return fr.top && fr.contract != nil && fr.contract.Opts["safety"] == "full" && w.muted == 0
+	ct := w.safetyContract(fr)
+	return ct != nil && ct.Opts["safety"] == "full" && w.muted == 0
+}
+
+// safetyContract is the contract whose safety option governs the instructions of this frame: the frame's own
+// when it is the function under verification; the top function's when it says `opt safety-inlined on` and the
+// frame is a helper of the same package inlined into it (a helper without contract has no other place where
+// its panics could be obligations: C12-r7-c moved a nil-interface call into such a helper).
+func (w *World) safetyContract(fr *Frame) *Contract {
+	if fr.top {
+		return fr.contract
+	}
+	top := w.topFrame
+	if top == nil || top.contract == nil || top.contract.Opts["safety-inlined"] != "on" || fr.contract != nil {
+		return nil
+	}
+	if fr.fn == nil || top.fn == nil || fr.fn.Pkg == nil || fr.fn.Pkg != top.fn.Pkg {
+		return nil
+	}
+	return top.contract
 }
 
 // derefPoint: the pointer (map, interface tag) term must not be nil here.
